@@ -159,6 +159,12 @@ func (e *Exec) instrWrites(fn *ssa.Function, in ssa.Instruction, ws map[string]b
 			ws[wsAlloc] = true
 			ws[e.boxHeap(t)] = true
 		}
+	case *ssa.Send:
+		ws["G$chcredit"] = true
+	case *ssa.UnOp:
+		if x.Op == token.ARROW {
+			ws["G$chcredit"] = true
+		}
 	case *ssa.Store:
 		e.addrWrites(x.Addr, ws)
 	case *ssa.MapUpdate:
@@ -174,6 +180,7 @@ func (e *Exec) instrWrites(fn *ssa.Function, in ssa.Instruction, ws map[string]b
 	case *ssa.MakeChan:
 		ws[wsAlloc] = true
 		ws["G$mayclose"] = true
+		ws["G$chcredit"] = true
 	case *ssa.Convert:
 		if sl, ok := x.Type().Underlying().(*types.Slice); ok {
 			ws[wsAlloc] = true
@@ -1377,14 +1384,22 @@ func (e *Exec) contractCall(fr *frame, st *State, callee *ssa.Function, spec *Fu
 			e.topFrame.entryParams[ch.Name] = w
 		}
 	}
-	if callee != nil && e.topFrame != nil && e.topFrame.spec != nil && fr == e.topFrame {
+	// calls through an interface have no static callee: they are named by the
+	// method (last component of the contract key, e.g. io/fs.DirEntry.IsDir)
+	calleeName := ""
+	if callee != nil {
+		calleeName = callee.Name()
+	} else if k := strings.LastIndex(key, "."); k >= 0 {
+		calleeName = key[k+1:]
+	}
+	if calleeName != "" && e.topFrame != nil && e.topFrame.spec != nil && fr == e.topFrame {
 		for _, gs := range e.topFrame.spec.GhostSets {
 			if gs.OnStore != "" {
 				continue
 			}
-			if gs.Callee != callee.Name() {
+			if gs.Callee != calleeName {
 				hit := false
-				for _, k := range e.siteKeys(fr, callee.Name()) {
+				for _, k := range e.siteKeys(fr, calleeName) {
 					if k == gs.Callee {
 						hit = true
 					}
